@@ -208,19 +208,19 @@ const agg2CmpBodyRaw = `// check to see if anything needs to be created
 	case same && safe && reuse == nil:
 		{{if .VV -}}
 		if swap{
-			reuse = NewDense(b.Dtype(), b.Shape().Clone(), WithEngine(e))
+			reuse = NewDense(b.Dtype(), b.Shape().Clone(), WithEngine(e), orderOf(b.DataOrder()))
 		} else{
-			reuse = NewDense(a.Dtype(), a.Shape().Clone(), WithEngine(e))
+			reuse = NewDense(a.Dtype(), a.Shape().Clone(), WithEngine(e), orderOf(a.DataOrder()))
 		}
 		{{else -}}
-		reuse = NewDense(a.Dtype(), a.Shape().Clone(), WithEngine(e))
+		reuse = NewDense(a.Dtype(), a.Shape().Clone(), WithEngine(e), orderOf(a.DataOrder()))
 		{{end -}}
 		dataReuse = reuse.hdr()
 		if useIter{
 		iit = IteratorFromDense(reuse)
 		}
 	case !same && safe && reuse == nil:
-		reuse = NewDense(Bool, a.Shape().Clone(), WithEngine(e))
+		reuse = NewDense(Bool, a.Shape().Clone(), WithEngine(e), orderOf(a.DataOrder()))
 		dataReuse =  reuse.hdr()
 		if useIter{
 		iit = IteratorFromDense(reuse)
@@ -327,12 +327,12 @@ const agg2MinMaxBodyRaw = `// check to see if anything needs to be created
 	if reuse == nil && safe {
 		{{if .VV -}}
 		if swap{
-			reuse = NewDense(b.Dtype(), b.Shape().Clone(), WithEngine(e))
+			reuse = NewDense(b.Dtype(), b.Shape().Clone(), WithEngine(e), orderOf(b.DataOrder()))
 		} else{
-			reuse = NewDense(a.Dtype(), a.Shape().Clone(), WithEngine(e))
+			reuse = NewDense(a.Dtype(), a.Shape().Clone(), WithEngine(e), orderOf(a.DataOrder()))
 		}
 		{{else -}}
-		reuse = NewDense(a.Dtype(), a.Shape().Clone(), WithEngine(e))
+		reuse = NewDense(a.Dtype(), a.Shape().Clone(), WithEngine(e), orderOf(a.DataOrder()))
 		{{end -}}
 		dataReuse = reuse.hdr()
 		if useIter{
